@@ -92,7 +92,8 @@ class C13(Prop):
     def _shape(self, c):
         if c["k"] == "ws":
             return ["ws", c["st_ms"], c["ping_ms"]]
-        return [c["comp"], c["mw"], [m["t"] for m in c.get("hist") or []], c["end"], c["peer"], bool(c.get("settle"))]
+        return [c["comp"], c["mw"], [m["t"] for m in c.get("hist") or []], c["end"], c["peer"], bool(c.get("settle")),
+                c.get("companion", 0)]
 
     def nontrivial_key(self, c):
         # a session case says something when at least one message was in flight or answered
